@@ -60,10 +60,36 @@ FIRST_WAVE_MISSED.update({
     "C18_f": "no delivery failed inside a reporting interval: a subscriber is now reported not writable while its type is published (the manager's own FAILED_MESSAGE is traffic as well)",
     "C19_e": "loggers only left by DISCONNECT: connected loggers are now reset / closed, paired with other modules' control frames in both service orders, with two loggers in both hash orders",
 })
+FIRST_WAVE_MISSED.update({
+    "C01_g": "every published frame carried the connection's own id as its source: probes now also carry a foreign source id (a relayed / replayed message), source 0 and a negative one",
+    "C02_g": "only client-published types were probed: a report period now elapses in every probe and the manager's own TIMING_MESSAGE must reach the client exactly when it claims to be subscribed to everything",
+    "C02_h": "the client never lost its connection: 'the same Client object connects again' (after a loss, after disconnect()) is now an operation of the alphabet",
+    "C03_g": "asynchronous deaths only hit modules that were already connected: a connecting module / logger now dies right before the manager's k-th send of the round that serves its own CONNECT",
+    "C05_g": "the order clause was only checked on the two publishers' frames and the manager ran silent: uniquely identifiable frames of ANY origin are now compared across receivers, and one plan row runs the manager at log level WARNING (its log records are messages too)",
+    "C05_h": "the largest payload was 65535 bytes: payloads of 65536, 200000 and 1048576 bytes (what the manager accepts) were added",
+    "C06_h": "no module id of the matrix was listed in the module-id table: id 5 (QUICK_LOGGER) with and without an explicit name was added",
+    "C07_g": "no logger stayed behind in the population and acknowledgement problems were left to C19: a staying logger was added and acknowledgement copies owed to clients that stay count as 'delivery among the remaining clients'",
+    "C07_h": "the virtual socket had no shutdown(): its behaviour after FIN / RST was measured on loopback (ENOTCONN, a plain OSError), modelled and added to the conformance pass; a socket method the model lacks is now a harness error, never a verdict",
+    "C08_g": "every scripted stream arrived as one segment: each frame kind is now also cut into two segments at every offset",
+    "C08_h": "returned messages were compared and dropped at once: every returned message is kept and compared again after all later reads",
+    "C09_g": "only fresh objects were probed after each step of a disable-block sequence: a long-lived message and array views of it taken after every step are now probed as well (only a missing refusal outside all blocks counts)",
+    "C10_h": "the float alphabet had no value whose shortest exact decimal needs all nine digits: such values, neighbours of powers of two and the smallest normal were added",
+    "C11_g": "no generated file (metadata AUTOGENERATED) was ever parsed for layout: the same definitions are now parsed with and without such metadata in the root, in an imported file and in the importer",
+    "C12_g": "every case used a fresh Parser: one Parser object is now used again after failed and successful parses (items of every kind registered before the failure)",
+    "C12_h": "the clashing pair was alone in its section: unrelated higher / lower ids are now declared before, between and after the pair in every arrangement (module, host and message ids)",
+    "C13_h": "every closure was built into a fresh directory: after the first build only an imported file is edited and the closure is rebuilt in place; the hash in all four outputs must be the new one",
+    "C14_g": "the quick tier had no manager with the timecode header (thorough had): a reduced timecode environment was added to quick",
+    "C15_h": "no array had length one: arrays whose length is or evaluates to exactly one, of every native type, a struct and a message",
+    "C16_h": "every closure had its own output directory: the second run now builds all closures of a group into one shared directory (all sources written first)",
+    "C18_g": "the population was fixed during reporting: refused connects (id in use, id out of range) and instances of a shared id joining / leaving now happen between reports",
+    "C19_h": "requests always carried destination 0: requests (changing nothing) now also carry destination module / host ids outside the routable range",
+    "C04_g": "all field names started with a letter: every fifth definition now has a field name with a leading underscore",
+    "C04_h": "the only float constant was 2.5: constants that need all their digits, computed ones (1 / RATE, 1.0 / 3), very small and large ones were added",
+})
 NEUTRALIZED = {"C17_b": "the change re-ordered the two Event operations of the hand-off; the second data-logger repair made the pair atomic under a lock, so the re-ordering no longer breaks the property (the demonstration passes on the repaired tree)"}
 rows = []
 titles = {}
-for d in sorted(glob.glob(os.path.join(HERE, "seeded", "*_[abcdef]"))):
+for d in sorted(glob.glob(os.path.join(HERE, "seeded", "*_[abcdefgh]"))):
     sid = os.path.basename(d)
     ev = json.load(open(os.path.join(d, "eval.json"))) if os.path.exists(os.path.join(d, "eval.json")) else {}
     notes = open(os.path.join(d, "notes.md")).read() if os.path.exists(os.path.join(d, "notes.md")) else ""
